@@ -710,8 +710,12 @@ func (ipcp *IPCPStateMachine) timeout() {
 		switch ipcp.state {
 		case IPCPStateClosing, IPCPStateStopping:
 			ipcp.sendTerminateRequest("Timeout")
-		case IPCPStateReqSent, IPCPStateAckRcvd, IPCPStateAckSent:
+		case IPCPStateReqSent, IPCPStateAckSent:
 			ipcp.sendConfigureRequest()
+		case IPCPStateAckRcvd:
+			// RFC 1661: TO+ in Ack-Rcvd retransmits and waits for a new Configure-Ack
+			ipcp.sendConfigureRequest()
+			ipcp.setState(IPCPStateReqSent)
 		}
 	} else {
 		switch ipcp.state {
